@@ -493,7 +493,7 @@ def run_cli_batch(tier, cls, nosrc):
             if r.returncode != 0:
                 last = [l for l in r.stderr.strip().splitlines() if l.strip()][-1:] or ['']
                 m = re.match(r'^([A-Za-z_][\w.]*)\s*:', last[0])
-                failure = (f"exception:{m.group(1).split('.')[-1]}" if m else 'nonzero-exit-status', r.stderr[-600:])
+                failure = (f"exception:{m.group(1).split('.')[-1]}" if m else 'nonzero-exit-status', ' | '.join(l.strip() for l in r.stderr.strip().splitlines()[-3:])[-600:])
             elif not os.path.exists(outb):
                 failure = ('no-output-file', r.stdout[-300:])
         except subprocess.TimeoutExpired:
